@@ -41,12 +41,25 @@ def gen(rnd):
         # Pings arrived first and are owed their event and their Pong
         extra = rnd.choice([E(3, b""), E(1, b"\xff"), E(9, b"m", mask_key=b"\x01\x02\x03\x04"), E(9, b"x" * 126), E(0, b"orphan"), E(2, b"r", rsv=4),
                             E(8, b"\x03"), E(8, ref6455.close_payload(1005, b"")), E(9, b"frag", fin=0), E(11, b"")]) + rnd.choice([b"", E(9, b"never")])
-    stream = scen.HANDSHAKE + body + extra
+    deflate = rnd.random() < 0.2
+    hs = scen.HANDSHAKE
+    if deflate and extra.startswith(E(2, b"r", rsv=4)):
+        # with the extension negotiated RSV1 is no violation; RSV2 is
+        extra = E(2, b"r", rsv=2) + extra[len(E(2, b"r", rsv=4)):]
+    if deflate:
+        # permessage-deflate negotiated (the server happens to send its messages uncompressed, which is legal): control frames
+        # are never compressed, the Pong carries the Ping's bytes as they are
+        hs = ref6455.handshake_response(scen.ACCEPT, extra=b"Sec-WebSocket-Extensions: permessage-deflate\r\n")
+        app = {k: [(a[0], a[1], False) if a[0] in ("text", "binary") else a for a in v] for k, v in app.items()}
+    stream = hs + body + extra
     chunks = scen.chunkings(rnd, stream, rnd.choice(["one", "one", "random", "small"]))
     wf = []
     if rnd.random() < 0.15:
         wf = ["ok"] * rnd.randrange(1, 5) + [rnd.choice(["oserr", "exc"])]
     sc = dict(cfg=simnet.default_cfg(auto_pong=auto), steps=scen.steps_from_chunks(chunks), app=app, keys=scen.keys(rnd, 40), key16=scen.KEY16, wfaults=wf)
+    if deflate:
+        sc["ws_kwargs"] = dict(compress=True)
+    sc["_deflate"] = deflate
     sc["_auto"] = auto
     sc["_tail"] = tailkind
     sc["_npings"] = sum(1 for k, _ in completed if k == "ping")
@@ -69,6 +82,8 @@ def oracle(sc, tr, extra):
             transport_failed = True
         if x["kind"] == "call" and x["action"] and x["action"][0] == "close" and x["result"] == 0:
             close_attempted = True
+        if x["kind"] == "write" and x["frame"] and x["frame"]["op"] >= 8 and x["frame"]["rsv"]:
+            out.append("a control frame (opcode %d) was written with reserved bits set (%d)" % (x["frame"]["op"], x["frame"]["rsv"]))
         if x["kind"] == "write" and x["frame"] and x["frame"]["op"] == 10 and not x["by_app"]:
             # a Pong written by the library: must be directly followed by its Ping event with the same payload
             nxt = tl[i + 1] if i + 1 < len(tl) else None
@@ -117,6 +132,7 @@ def run(rep, info, model, tier, seed):
         rep.count("tail", sc["_tail"])
         rep.count("pings", min(sc["_npings"], 10))
         rep.count("write_fault", sc["_wf"])
+        rep.count("permessage_deflate_negotiated", sc["_deflate"])
     fam.run_family(rep, model, "C14:pings-anywhere", scs, oracle, project=lambda t: t,
                    rule="streams with 0-20 Pings (payload 0..125 bytes) at the start, between fragments, back-to-back in one read, after the server's or the client's Close, before a protocol violation in the same read, with failing writes; auto_pong on/off; the application sends in reaction to events; wire order is checked against event order")
     if not proof_ok and not rep.violations:
